@@ -63,6 +63,24 @@ theorem ply_claim_stage (ws : List WProp) (hnd : (wsNames ws).Nodup) (hg : claim
   obtain ⟨h1, h2, h3⟩ := claim_of_guard_ws true ws hnd hg (by simp)
   exact ⟨fun b hb => located_of_good ws hnd b (h1 b hb), h2, h3⟩
 
+/-- THE WHOLE READER LIST, EXACTLY, inside the guard: as (attribute, names, decoding type) the readers `MeshReader.Read`
+builds on the written header are `claimSpec ws` — the predicted default readers in the order of
+`defaultReader.Properties`, then one scalar reader per property none of them claims, in header order
+(which default readers are NOT built, and the exact unclaimed-scalar list, included) -/
+theorem ply_claim_stage_exact (ws : List WProp) (hnd : (wsNames ws).Nodup) (hg : claimGuard ws = true) :
+    (buildAll true (wsProps ws) defaultReaders true).map (fun b => (b.attr, b.names, b.ty))
+      = (claimSpec ws).map (fun x => (x.1, x.2.1, some x.2.2)) :=
+  claimSpec_exact ws hnd hg
+
+/-- the predicate of the oracle `c04.holds.claim_ok`, on the header the MODEL writer produces, for every configuration and
+mesh whose write succeeds: a theorem (the driver evaluates it on the header the REAL writer produced) -/
+theorem ply_claim_oracle_holds (c : Coding α) (cfg : WriterCfg) (m : MeshVal α) (body : Bytes)
+    (h : writeBody c cfg m = .ok body) :
+    claimAgrees (selectWriters cfg m) (headerProps (selectWriters cfg m)) = true := by
+  have hnd := (names_of_writeBody_ok c cfg m body h).2
+  rw [← wsProps_eq, wsProps_names] at hnd
+  exact claimAgrees_of_guard _ hnd
+
 /-- `ClaimOK` — the claim-stage hypothesis of `ply_roundtrip_binary_partial` / `_uv` / `_bytes` — FROM THE GUARD, for every
 configuration and mesh whose write succeeds (a successful write makes the names distinct, writer.go:144-158) -/
 theorem ply_claim_ok_from_guard (c : Coding α) (cfg : WriterCfg) (m : MeshVal α) (body : Bytes)
@@ -115,6 +133,11 @@ example : claimGuard (selectWriters (defaultWriter .le) exUV) = true := by decid
 claims are Position (3 names), Color by the IgnorableW fallback (first three names), and nothing else -/
 example : defaultReaders.filterMap (fun r => (expectNames (selectWriters (defaultWriter .be) exMesh) r).map (fun p => (r.attr, p.1, p.2)))
     = [(positionAttr, [nm "x", nm "y", nm "z"], .float), (colorAttr, [nm "red", nm "green", nm "blue"], .uchar)] := by decide
+
+/-- … and the whole predicted reader list: Position, Color, then the scalar `quality` -/
+example : claimSpec (selectWriters (defaultWriter .be) exMesh)
+    = [(positionAttr, [nm "x", nm "y", nm "z"], .float), (colorAttr, [nm "red", nm "green", nm "blue"], .uchar),
+       (nm "quality", [nm "quality"], .float)] := by decide
 
 example : ∃ back, readMesh toyCoding defaultReader ((writeMesh toyCoding (defaultWriter .be) exMesh).toOption.getD [])
       = .ok back ∧ RoundTrips toyCoding (defaultWriter .be) exMesh back = true :=
